@@ -185,6 +185,19 @@ theorem concurrent_writes_framed (ws : List (List Bytes)) (ops : List CWOp)
 example : (CW.run { waiting := [[[1], [2, 10]], [[3], [4, 10]]] } [.acquire 1, .piece, .acquire 0, .piece, .acquire 0, .piece, .piece]).out
     = [3, 4, 10, 1, 2, 10] := by decide
 
+/-- **logging_transparent.**  A `LoggingTransport` hands every message on unchanged, in both directions: what
+its `Read` returns is what the delegate's `Read` returned, what its `Write` does to the stream is what the
+delegate's `Write` does. -/
+theorem logging_transparent (o : ReadOut) (m : Msg) (w : WriteOut) : (logRead o).1 = o ∧ (logWrite m w).1 = w :=
+  ⟨rfl, rfl⟩
+
+/-- **logged_payload_roundtrip.**  The payload logged for a well-formed message that was read or written decodes
+to that message. -/
+theorem logged_payload_roundtrip (m : Msg) (h : wfMsg m = true) :
+    (∃ v, (logRead (.msg m)).2 = .read v ∧ decodeMsg v = .ok m) ∧
+    (∀ w, w ≠ WriteOut.panic → ∃ v, (logWrite m w).2 = some (.write v) ∧ decodeMsg v = .ok m) :=
+  ⟨⟨_, rfl, decode_encode_msg m h⟩, fun w hw => ⟨_, by simp [logWrite, hw], decode_encode_msg m h⟩⟩
+
 /-- **ndjson_stream_roundtrip** (byte level, reader side of `ioConn`).  For EVERY list of values that are JSON
 objects or arrays as far as the decoder's scanner sees them (`framed`: the bracket depth outside string literals
 returns to zero exactly at the last byte — escapes, quotes and brackets inside strings included), each followed by
